@@ -29,8 +29,10 @@ pub enum Kind {
     Sim2,
     Sim3,
     F64b,
+    /// the value type with other integer and float widths: a second instantiation of every generic item
+    Val64,
 }
-pub const ALL_KINDS: [Kind; 8] = [
+pub const ALL_KINDS: [Kind; 9] = [
     Kind::F64,
     Kind::F32,
     Kind::Val,
@@ -39,6 +41,7 @@ pub const ALL_KINDS: [Kind; 8] = [
     Kind::Sim2,
     Kind::Sim3,
     Kind::F64b,
+    Kind::Val64,
 ];
 
 pub fn kind_from_name(k: &str) -> Option<Kind> {
@@ -311,6 +314,10 @@ literal_matcher_from_pattern!(BoolMatcher, "^(true|false)");
 
 pub trait Probe: DiffDataType + Send + Sync + 'static {
     fn palette(r: &mut Rng) -> Self;
+    /// an array-valued sample of the given length, for data types that have arrays
+    fn array(_r: &mut Rng, _len: usize) -> Option<Self> {
+        None
+    }
     /// exact rendering (floats by bit pattern)
     fn show(&self) -> String;
 }
@@ -357,14 +364,67 @@ impl Probe for f32 {
         format!("{:08x}", self.to_bits())
     }
 }
+fn pal_array(r: &mut Rng) -> Vec<f64> {
+    // mostly short; sometimes long enough (>= 32) to reach code paths that treat long arrays differently
+    let n = match r.below(6) {
+        0 => 33,
+        1 => 40,
+        _ => r.range(0, 5),
+    };
+    (0..n).map(|_| pal_f64(r)).collect()
+}
 impl Probe for Val<i32, f64> {
+    fn array(r: &mut Rng, len: usize) -> Option<Self> {
+        Some(Val::Array((0..len).map(|_| (r.f64_unit() - 0.5) * 8.0).collect()))
+    }
     fn palette(r: &mut Rng) -> Self {
-        match r.below(8) {
-            0 | 1 => Val::Int([0, 1, -1, 2, 3, 7, 12, -40][r.below(8)]),
+        match r.below(9) {
+            8 => {
+                if r.chance(1, 2) {
+                    Val::Error(exmex::ExError::new("probe error value"))
+                } else {
+                    Val::None
+                }
+            }
+            0 | 1 => Val::Int([0, 1, -1, 2, 3, 7, 12, -40, 14, 19][r.below(10)]),
             2 | 3 | 4 => Val::Float(pal_f64(r)),
             5 => Val::Bool(r.chance(1, 2)),
-            6 => Val::Array((0..r.range(0, 5)).map(|_| pal_f64(r)).collect()),
+            6 => Val::Array(pal_array(r).into_iter().collect()),
             _ => Val::Int(r.below(100) as i32 - 50),
+        }
+    }
+    fn show(&self) -> String {
+        match self {
+            Val::Array(a) => format!(
+                "A[{}]",
+                a.iter().map(|x| x.show()).collect::<Vec<_>>().join(",")
+            ),
+            Val::Int(i) => format!("I{i}"),
+            Val::Float(x) => format!("F{}", x.show()),
+            Val::Bool(b) => format!("B{b}"),
+            Val::Error(e) => format!("E({})", e.msg()),
+            Val::None => "None".to_string(),
+        }
+    }
+}
+impl Probe for Val<i64, f32> {
+    fn array(r: &mut Rng, len: usize) -> Option<Self> {
+        Some(Val::Array((0..len).map(|_| ((r.f64_unit() - 0.5) * 8.0) as f32).collect()))
+    }
+    fn palette(r: &mut Rng) -> Self {
+        match r.below(9) {
+            8 => {
+                if r.chance(1, 2) {
+                    Val::Error(exmex::ExError::new("probe error value"))
+                } else {
+                    Val::None
+                }
+            }
+            0 | 1 => Val::Int([0, 1, -1, 2, 3, 7, 12, -40, 14, 19][r.below(10)]),
+            2 | 3 | 4 => Val::Float(pal_f64(r) as f32),
+            5 => Val::Bool(r.chance(1, 2)),
+            6 => Val::Array(pal_array(r).into_iter().map(|x| x as f32).collect()),
+            _ => Val::Int(r.below(100) as i64 - 50),
         }
     }
     fn show(&self) -> String {
@@ -453,6 +513,15 @@ impl KindSpec for KVal {
     const BINARY: &'static [&'static str] = &["+", "*", "==", "if", "else", "%", "&&"];
     const SUBS: &'static [&'static str] = &["2*q", "1 if q > 0 else 2", "[1,2,3]", "true"];
 }
+pub struct KVal64;
+impl KindSpec for KVal64 {
+    type T = Val<i64, f32>;
+    type OF = ValOpsFactory<i64, f32>;
+    type LM = ValMatcher;
+    const UNARY: &'static [&'static str] = &["-", "to_float", "abs", "fact", "!"];
+    const BINARY: &'static [&'static str] = &["+", "*", "==", "if", "else", "%", "&&"];
+    const SUBS: &'static [&'static str] = &["2*q", "1 if q > 0 else 2", "[1,2,3]", "true", "fact(15)"];
+}
 pub struct KBool;
 impl KindSpec for KBool {
     type T = B;
@@ -499,6 +568,14 @@ type Dx<K> = DeepEx<'static, <K as KindSpec>::T, <K as KindSpec>::OF, <K as Kind
 
 pub fn points<T: Probe>(n: usize, point: u32) -> Vec<T> {
     let mut r = Rng::new(derive(0x5EED_0F_70_1275, point as u64));
+    if point % 24 >= 18 {
+        // array points: every variable is an array of one common length (short, or long enough to
+        // cross size thresholds in array code), for the data types that have arrays
+        let len = [3usize, 33, 40, 3, 64, 33][(point % 6) as usize];
+        if T::array(&mut r, 1).is_some() {
+            return (0..n).map(|_| T::array(&mut r, len).unwrap()).collect();
+        }
+    }
     (0..n).map(|_| T::palette(&mut r)).collect()
 }
 
@@ -533,6 +610,10 @@ where
     }
 }
 
+/// Set by the plain/Miri runner: leave the (long) `{:?}` rendering out of observations. Formatting
+/// and canonicalising a few kilobytes per operation dominates the interpreter's time otherwise.
+pub static LIGHT_OBS: std::sync::atomic::AtomicBool = std::sync::atomic::AtomicBool::new(false);
+
 /// Everything the public accessors show. `with_debug` adds the `{:?}` rendering, which
 /// exposes every field; it is only used where both sides of a comparison have the
 /// same history (right after a parse), so that a semantically invisible cache
@@ -552,7 +633,7 @@ where
         e.operator_reprs(),
         e,
     );
-    if with_debug {
+    if with_debug && !LIGHT_OBS.load(std::sync::atomic::Ordering::Relaxed) {
         s.push_str(&format!("|debug={e:?}"));
     }
     s
@@ -849,6 +930,7 @@ pub fn make_handle(kind: Kind, form: Form, text: &str, compile: bool) -> Result<
         Kind::F64b => make_k::<KF64b>(form, text, compile),
         Kind::F32 => make_k::<KF32>(form, text, compile),
         Kind::Val => make_k::<KVal>(form, text, compile),
+        Kind::Val64 => make_k::<KVal64>(form, text, compile),
         Kind::Bool => make_k::<KBool>(form, text, compile),
         Kind::Sim => make_k::<KSim>(form, text, compile),
         Kind::Sim2 => make_k::<KSim2>(form, text, compile),
